@@ -113,6 +113,29 @@ theorem program_slotOp {B size i a : Nat} {bs : List Nat} (h : SlotWrite B size 
     Emits B (SlotOp B size i) (writeFrom a bs) :=
   writeFrom_emits a bs (OrTorn.self h) (fun p keep => OrTorn.torn h p keep)
 
+/-- an intended program that lies entirely at or after offset `0x400` of slot `i` (status table, data region,
+    parity blocks, matrix rows) -/
+def BodyWrite (size i : Nat) : Op → Prop
+  | .erase _ => False
+  | .program a bs => ∃ off, a = i * size + off ∧ 0x400 ≤ off ∧ off + bs.length ≤ size
+
+/-- … or a torn version of one -/
+def BodyOp (size i : Nat) : Op → Prop := OrTorn (BodyWrite size i)
+
+theorem BodyWrite.slotWrite {B size i : Nat} {op : Op} (h : BodyWrite size i op) : SlotWrite B size i op := by
+  cases op with
+  | erase a => exact h.elim
+  | program a bs =>
+    obtain ⟨off, e, h1, h2⟩ := h
+    exact ⟨off, e, h2, fun hlt => by omega⟩
+
+theorem BodyOp.slotOp {B size i : Nat} {op : Op} (h : BodyOp size i op) : SlotOp B size i op :=
+  OrTorn.mono (fun _ h => h.slotWrite) h
+
+theorem program_bodyOp {B size i a : Nat} {bs : List Nat} (h : BodyWrite size i (.program a bs)) :
+    Emits B (BodyOp size i) (writeFrom a bs) :=
+  writeFrom_emits a bs (OrTorn.self h) (fun p keep => OrTorn.torn h p keep)
+
 theorem eraseFrom_emits {B : Nat} (size i : Nat) : ∀ (k cur : Nat), i * size ≤ cur → cur + k * B ≤ i * size + size →
     Emits B (SlotOp B size i) (eraseFrom cur B k) := by
   intro k
@@ -210,7 +233,7 @@ theorem numSegments_emits {B Q} (s : Slot) : EmitsR B Q (fun _ => True) s.numSeg
     only when `WRITTEN_OFFSET + idx < size`; every accepted slot size (`> 17408`) gives that, because the index
     check leaves `idx ≤ 16384`. -/
 theorem markSegmentWritten_emits {B : Nat} (s : Slot) (idx : Nat) (h : WRITTEN_OFFSET + idx < s.size) :
-    Emits B (SlotOp B s.size s.idx) (s.markSegmentWritten idx) := by
+    Emits B (BodyOp s.size s.idx) (s.markSegmentWritten idx) := by
   unfold Slot.markSegmentWritten
   dsimp only
   simp only [throw_bind]
@@ -218,17 +241,15 @@ theorem markSegmentWritten_emits {B : Nat} (s : Slot) (idx : Nat) (h : WRITTEN_O
   · exact EmitsR.throw
   · split
     · exact EmitsR.throw
-    · apply program_slotOp
-      refine ⟨WRITTEN_OFFSET + idx, rfl, ?_, ?_⟩
-      · show WRITTEN_OFFSET + idx + 1 ≤ s.size
-        omega
-      · intro hlt
-        have : WRITTEN_OFFSET = 1024 := rfl
-        omega
+    · apply program_bodyOp
+      have : WRITTEN_OFFSET = 1024 := rfl
+      refine ⟨WRITTEN_OFFSET + idx, rfl, by omega, ?_⟩
+      show WRITTEN_OFFSET + idx + 1 ≤ s.size
+      omega
 
 /-- the same from the minimum slot size alone -/
 theorem markSegmentWritten_emits' {B : Nat} (s : Slot) (idx : Nat) (h : 17408 < s.size) :
-    Emits B (SlotOp B s.size s.idx) (s.markSegmentWritten idx) := by
+    Emits B (BodyOp s.size s.idx) (s.markSegmentWritten idx) := by
   by_cases hi : idx > MAX_SEGMENTS
   · unfold Slot.markSegmentWritten
     dsimp only
@@ -245,7 +266,7 @@ theorem markSegmentWritten_emits' {B : Nat} (s : Slot) (idx : Nat) (h : 17408 < 
     function itself). In a session this follows from the accepted geometry `seg·n ≤ size − 17408` and `idx < n`. -/
 theorem writeSegment_emits {B : Nat} (s : Slot) (idx : Nat) (buf : List Nat)
     (h : DATA_REGION_OFFSET + (idx + 1) * buf.length ≤ s.size) :
-    EmitsR B (SlotOp B s.size s.idx) (fun s' => SamePos s s') (s.writeSegment idx buf) := by
+    EmitsR B (BodyOp s.size s.idx) (fun s' => SamePos s s') (s.writeSegment idx buf) := by
   unfold Slot.writeSegment
   dsimp only
   simp only [throw_bind]
@@ -272,10 +293,9 @@ theorem writeSegment_emits {B : Nat} (s : Slot) (idx : Nat) (buf : List Nat)
         · rw [hi, hsz]
           have hmul : (idx + 1) * buf.length = idx * buf.length + buf.length := Nat.succ_mul _ _
           refine EmitsR.seq (R := fun _ => True) ?_ ?_
-          · apply program_slotOp
-            refine ⟨DATA_REGION_OFFSET + idx * seg, rfl, ?_, ?_⟩
-            · rw [hseg']; omega
-            · intro hlt; omega
+          · apply program_bodyOp
+            refine ⟨DATA_REGION_OFFSET + idx * seg, rfl, by omega, ?_⟩
+            rw [hseg']; omega
           · refine EmitsR.seq (R := fun _ => True) ?_ (EmitsR.pure ⟨hi, hsz⟩)
             have := markSegmentWritten_emits (B := B) s' idx (by rw [hsz]; omega)
             rw [hi, hsz] at this
@@ -301,17 +321,16 @@ theorem readSegment_emits {B Q} (s : Slot) (idx len : Nat) :
 
 /-- `Slot::write_raw` — its own check includes the buffer length, so it needs only `HEADER_SIZE ≤ size` -/
 theorem writeRaw_emits {B : Nat} (s : Slot) (off : Nat) (buf : List Nat) (hs : HEADER_SIZE ≤ s.size) :
-    Emits B (SlotOp B s.size s.idx) (s.writeRaw off buf) := by
+    Emits B (BodyOp s.size s.idx) (s.writeRaw off buf) := by
   unfold Slot.writeRaw
   dsimp only
   simp only [throw_bind]
   have hH : HEADER_SIZE = 1024 := rfl
   split
   · exact EmitsR.throw
-  · apply program_slotOp
-    refine ⟨HEADER_SIZE + off, by rw [Nat.add_assoc], ?_, ?_⟩
-    · omega
-    · intro hlt; omega
+  · apply program_bodyOp
+    refine ⟨HEADER_SIZE + off, by rw [Nat.add_assoc], by omega, ?_⟩
+    omega
 
 theorem readRaw_emits {B Q} (s : Slot) (off len : Nat) :
     EmitsR B Q (fun bs => bs.length = len) (s.readRaw off len) := by
